@@ -243,7 +243,7 @@ def strategy(tier):
              "solutions": st.lists(st.lists(st.integers(0, 300), min_size=1, max_size=4), min_size=1, max_size=4)}
         if g == "gen":
             d["db"] = gen_db.db_specs(gaps=False, pseudo=True, force_sv=True, small=True, max_sites=8, max_alleles=7,
-                                      kinds=["snp", "mnp", "ins", "del", "snp"])
+                                      kinds=["snp", "mnp", "ins", "del", "snp", "delins"])
         return st.fixed_dictionaries(d)
 
     return st.sampled_from(GENES).flatmap(for_gene)
